@@ -141,8 +141,10 @@ func (sc *SearchCache) generateCacheKey(query string, options SearchOptions) str
 	// Serialize to JSON for consistent key generation
 	jsonData, err := json.Marshal(keyData)
 	if err != nil {
-		// Fallback to simple key if JSON marshaling fails
-		return fmt.Sprintf("%s%s:%d", sc.keyPrefix, normalizedQuery, options.Limit)
+		// JSON cannot encode NaN or infinite option values. Fall back to Go syntax, which
+		// still covers every option (maps are printed in sorted key order), so that such
+		// requests do not share entries across their other options.
+		jsonData = []byte(fmt.Sprintf("%#v", keyData))
 	}
 
 	// Generate SHA256 hash for compact key (more secure than MD5)
